@@ -167,6 +167,28 @@ def run_dialect(d, L, M):
     shared = SHARED["pm"]
     f = spec["feature"][0]
     bgk = spec["background"][0]
+    # '* x' lines in every dialect, also where the dialect does not list '* ': whenever a pickle step carries the keyword
+    # '* ' its type is Unknown, and an And/But after it is Unknown too (the statement's rule, whatever the dialect)
+    for plain in (True, False):
+        lines = hdr + [f + ": f", "  " + (spec["scenario"][0] if plain else spec["scenarioOutline"][0]) + ": s", "    " + kws["Context"] + "a", "    * b",
+                       "    " + kws.get("Conjunction", kws["Context"]) + "c"]
+        if not plain:
+            lines += ["    " + spec["examples"][0] + ":", "      | h |", "      | v |"]
+        text = "\n".join(lines) + "\n"
+        o = observe.parse_observed(text)
+        M.count("star_probes")
+        if o.status == "ok":
+            k = int(o.idgen.get_next_id())
+            got = pc.compare(o.ast, "u", k, ID, M, {"kind": "text", "text": text})
+            for p in got or []:
+                kw_by_id = {n["id"]: n.get("keyword") for kind_, n in observe.iter_nodes(o.ast) if kind_ == "step"}
+                after_star = False
+                for st in p["steps"]:
+                    kwd = kw_by_id.get(st["astNodeIds"][0])
+                    if (kwd == "* " or after_star) and st.get("type") != "Unknown":
+                        M.violation("C10.types", {"what": "a pickle step written with '* ' (or an And/But step right after it) has a type other than Unknown",
+                                                  "dialect": d, "keyword": kwd, "type": st.get("type")}, {"kind": "text", "text": text})
+                    after_star = kwd == "* " or (after_star and "Conjunction" in kws and kwd == kws["Conjunction"])
     sck = spec["scenarioOutline"][0]
     exk = spec["examples"][0]
     for n in range(1, L + 1):
